@@ -167,6 +167,9 @@ func (e *Engine) callResolved(st *State, in ssa.Instruction, t callTarget, k fun
 		}
 	}
 	st.event(evName, pos, evArgs...)
+	if q := qualifiedCallee(t); q != "" {
+		st.event("call:"+q, pos, evArgs...)
+	}
 	if tc := st.ctx.contract; tc != nil && tc.Det && in != nil {
 		ok := e.isDeterministic(t)
 		if !ok {
@@ -1545,6 +1548,24 @@ func (e *Engine) hookAllocBound(st *State, in ssa.Instruction, ln, cp Term) {
 // ---------------------------------------------------------------------------
 // hooks at calls
 
+// qualifiedCallee: "pkg.Func" for a statically known package-level function or method.
+func qualifiedCallee(t callTarget) string {
+	if t.fn == nil || t.fn.Pkg == nil {
+		return ""
+	}
+	return t.fn.Pkg.Pkg.Name() + "." + t.fn.Name()
+}
+
+func qualifiedCalleeOf(c *ssa.CallCommon) string {
+	if c.IsInvoke() {
+		return ""
+	}
+	if f, ok := c.Value.(*ssa.Function); ok && f.Pkg != nil {
+		return f.Pkg.Pkg.Name() + "." + f.Name()
+	}
+	return ""
+}
+
 func hookKeys(st *State, in ssa.Instruction, t callTarget) []string {
 	if in == nil {
 		return nil
@@ -1552,10 +1573,27 @@ func hookKeys(st *State, in ssa.Instruction, t callTarget) []string {
 	name := st.ctx.oblName(in, "call")
 	ord := name[strings.LastIndex(name, "#")+1:]
 	callee := t.name
+	keys := []string{}
 	if c, ok := in.(ssa.CallInstruction); ok {
 		callee = calleeName(c.Common())
+		// package-qualified form, with its own ordinal (pkg.Func#k counts only calls of pkg.Func)
+		if q := qualifiedCalleeOf(c.Common()); q != "" {
+			n := 0
+			found := 0
+			for _, b := range in.Parent().Blocks {
+				for _, x := range b.Instrs {
+					if ci, ok := x.(ssa.CallInstruction); ok && qualifiedCalleeOf(ci.Common()) == q {
+						n++
+						if x == in {
+							found = n
+						}
+					}
+				}
+			}
+			keys = append(keys, fmt.Sprintf("%s#%d", q, found), q)
+		}
 	}
-	return []string{callee + "#" + ord, callee}
+	return append(keys, callee+"#"+ord, callee)
 }
 
 func (e *Engine) runHooks(st *State, in ssa.Instruction, t callTarget, after bool) {
